@@ -44,6 +44,17 @@ def routing_scenarios(thorough):
             if i not in ("two-execs", "child-sync-ok"):      # (the child has a fixed name: one parent only)
                 s["starts"] = s["starts"] + [dict(s["starts"][0], name="e2")]
             out.append(s)
+    # a request that no queue takes (the function does not exist: the mandatory publish is RETURNED, a message without a
+    # delivery tag) while another execution on the same channel holds an unacknowledged delivery: handling the return must
+    # settle nothing (AckOnce: exactly that delivery and no other)
+    un = S.scn("unroutable-beside-waiting", S.SM("C", C=S.Ch([{"Variable": "$.x", "NumericEquals": 1, "Next": "U"}], "A"),
+                                                 U=S.T("nobody", End=True), A=S.T("f", End=True)), inputs=({"x": 2}, {"x": 1}))
+    for n, tr in ((1, "asyncio"), (1, "blocking"), (2, "asyncio")) if thorough else ((1, "asyncio"), (1, "blocking")):
+        s = json.loads(json.dumps(un))
+        s["id"] = "unroutable-beside-waiting@%d-classic-%s" % (n, tr)
+        s["workers"] = ["f"]
+        s["world"] = {"instances": n, "queue_type": "classic", "transport": tr}
+        out.append(s)
     return out
 
 
